@@ -333,6 +333,9 @@ var fixedCubics = []struct {
 	tol float64
 }{
 	{[8]float64{5.25, 13.188, -9, 8.401, 6, 1.369, -1.929, 6}, 1},
+	// since f410714 shrinks the ranges of the cubic above, this cusp drives the branch "t1 range extends beyond the end" (0b69218)
+	{[8]float64{12.24, 15.25, 13.20719227693256, 1.789999938632006, 12.233508774840201, 15.439999938632006, 13.2, 1.6}, 1},
+	{[8]float64{8.36, 17.2, 12.686790015884446, -17.136022638468976, 8.352797823589983, 17.703977361531024, 12.68, -17.64}, 0.3},
 	{[8]float64{4.75, -16.342, 2.009085582444131, 1.1275676600967628, 4.744297569384708, -15.214432339903237, 2, 0}, 0.1},
 	{[8]float64{4.75, -16.342, 2.009085582444131, 1.1275676600967628, 4.744297569384708, -15.214432339903237, 2, 0}, 0.01},
 	{[8]float64{0.214, -15.896, 16.371, -3, -0.854, 19.91, -0.854, 19.91}, 0.01},
@@ -365,6 +368,11 @@ func corrCubic(c *hc.Ctx) {
 		default:
 			c.Count("inflections:0")
 		}
+		// cubicBezierDeviation: + - * / sqrt (Hypot as on amd64), comparisons -> bit exact; with and without the
+		// offset term of 07f2911
+		dd := []float64{0, 0, 0.75, -2.5, c.Range(-3, 3)}[c.Intn(5)]
+		c.Case("DV "+args+" "+hc.H(dd), "=", hc.H(canvas.VerifCubicBezierDeviation(p0, p1, p2, p3, dd)))
+		c.Count(fmt.Sprintf("corr-deviation:offset=%v", dd != 0))
 		c.Count("branch:strokeCubicBezier:" + strokeBranch(p0, p1, p2, p3, t1, t2, math.Max(tol, canvas.Epsilon)))
 		// subdivision loop alone
 		fs := func(tol float64) []float64 { return canvas.VerifFlattenSmoothCubicBezier(p0, p1, p2, p3, tol) }
@@ -699,18 +707,6 @@ func corrSig(c *hc.Ctx) {
 		out, err := hc.Decode(q.Data())
 		if err != nil {
 			c.Fail("malformed-output", err.Error(), map[string]any{"path": p.String(), "tol": tol})
-			continue
-		}
-		skip := false
-		for _, s := range in {
-			// a closed CUBIC with a collinear fold-back control polygon still flattens to nothing (recorded
-			// defect class, judged by the oracle in oraclePaths); closed quadratics are repaired (717ff35)
-			if fold, col := foldback(s); s.Kind == 'C' && s.P0.Dist(s.End) < 1e-9 && fold && col {
-				skip = true
-			}
-		}
-		if skip {
-			c.Count("sig-skip-closed-collinear-cubic")
 			continue
 		}
 		c.Case("SIG "+cmdTokens(in), "~", sigTokens(signature(out)))
@@ -1048,12 +1044,10 @@ func classify(s hc.Seg) string {
 //	quadratic, control polygon turning <= 90 degrees: 2 (theorems C03.quad_piece_within_two_tol_partial,
 //	   C03.quad_last_piece_within_two_tol_partial)
 //	circle arcs: vertices on radius r + ratio*tol, chords touch r - tol (ratio <= 1) -> 2
-//	cubic (turn <= 90 degrees): derived from the step rule, no Lean theorem. In the r-s frame of the piece
-//	   (Hain et al.) the deviation from the start tangent is s(x) = 3 s2 x^2 + (s3 - 3 s2) x^3; the code steps
-//	   t = min(t2, t3) with 3 s2 t2^2 = 4 tol and |s3| t3^3 = 8 tol. Against the chord of [0,t] the x^2 term
-//	   deviates by at most 3 s2 t^2/4 <= tol, the x^3 term by at most 2/(3 sqrt 3) |s3 - 3 s2| t^3
-//	   <= 0.3849 (8 + 4) tol, together 5.62 tol (a curve observed on the unchanged tree reaches 4.36:
-//	   M-4 10C-5 -7 -4 -10 15.805 -12.319 at tol 0.1)
+//	cubic: 4, for EVERY cubic — since f410714 every emitted chord is checked with cubicBezierDeviation
+//	   (3/4 of the larger distance of the inner control points from the chord segment, a rigorous bound of the
+//	   distance curve -> chord: theorems C03.cubic_within_deviation_of_chord, C03.flatten_cubic_every_piece_within_four_tol)
+//	   and steps / inflection ranges are halved until it is <= 4 tol (measured maximum 3.98 on 60,000 curves)
 //
 // Elliptic (rx != ry) arcs are first replaced by cubics (arcToCube), which have a fixed relative error:
 // for the control length alpha = sin(d)(sqrt(4+3 tan^2(d/2))-1)/3 used by the code the midpoint of a
@@ -1061,7 +1055,7 @@ func classify(s hc.Seg) string {
 const (
 	cQuad      = 2.0
 	cCircle    = 2.0
-	cCubic     = 5.62
+	cCubic     = 4.0
 	arcToCubeR = 2.0e-3
 )
 
@@ -1178,10 +1172,9 @@ func flattenOne(c *hc.Ctx, p *canvas.Path, tol float64, fam string) {
 		}
 		return
 	}
-	// verdict in Lean: for a single Bézier of a class for which the bound is claimed (every quadratic, cubics
-	// without fold-back) the observation (control points, tolerance, bound, rounding allowance, the real
+	// verdict in Lean: for every single Bézier the observation (control points, tolerance, bound, rounding allowance, the real
 	// output polyline) goes to the driver, which samples the curve itself and decides with `coveredBy`
-	if len(in) == 2 && (in[1].Kind == 'Q' || in[1].Kind == 'C') && classify(in[1]) == "" && len(out) <= 600 {
+	if len(in) == 2 && (in[1].Kind == 'Q' || in[1].Kind == 'C') && len(out) <= 600 {
 		s := in[1]
 		ctrl := []float64{s.P0.X, s.P0.Y, s.P1.X, s.P1.Y}
 		deg := "2"
@@ -1230,6 +1223,8 @@ var regressionInputs = []struct {
 	tols       []float64
 }{
 	{"fix-beyond-end 1552b69", "M5.25 13.188C-9 8.401 6 1.369 -1.929 6", []float64{1}},
+	{"fix-beyond-end 0b69218 (cusp)", "M12.24 15.25C13.20719227693256 1.789999938632006 12.233508774840201 15.439999938632006 13.2 1.6", []float64{1}},
+	{"fix-beyond-end 0b69218 (cusp)", "M8.36 17.2C12.686790015884446 -17.136022638468976 8.352797823589983 17.703977361531024 12.68 -17.64", []float64{0.3}},
 	{"fix-backtrack 36c5472", "M4.75 -16.342C2.009085582444131 1.1275676600967628 4.744297569384708 -15.214432339903237 2 0", []float64{0.1, 0.01}},
 	{"fix-end-inflection db1c93a", "M0.214 -15.896C16.371 -3 -0.854 19.91 -0.854 19.91", tolerances},
 	{"fix-foldback-quad 717ff35", "M0 0Q2 0 1 0", tolerances},
